@@ -233,7 +233,13 @@ def run_svmc(prop, tier, jobs, level="model_checking", extra_assumptions=()):
             ok = r.returncode not in (0, 1) or "VIOLATED" in r.stdout or "AddressSanitizer" in r.stdout
         else:
             ok = any(("VIOLATED" in ln and prop in ln.split("[")[0]) for ln in r.stdout.splitlines())
-        if not ok:
+        if not ok and v["crash"]:
+            # a crash that does not reproduce when the transition is replayed alone: memory was
+            # corrupted by an earlier transition of the same exploration. It is still a violation
+            # (no worker ever dies on a correct library); the replay file says so.
+            v["detail"] += " [did not reproduce when replayed alone: an earlier transition of the exploration corrupted memory]"
+            v["replay"]["reproduced_alone"] = False
+        elif not ok:
             herrs.append("violation [%s | %s] on %s did not reproduce from its replay: %s"
                          % (v["oracle"], v["op"], v["config"], v["replay"]["history"]))
         v["replay"]["transcript"] = r.stdout[-4000:]
@@ -475,6 +481,8 @@ def plan_C16(prop, tier):
     # non-member accessors / swap on every state of the run-time graphs
     jobs = w1_jobs(tier, grid(("NM", "TR"), (0, 2), (1,)), G_APPEND1 | G_ERASE | G_CAP | G_INSERT1, 0)
     jobs += w2_jobs(tier, ("NM",), ((0, 0), (2, 2)), (-1, 0, 7), 0)
+    # non-member swap must behave as the member does also when an element operation throws
+    jobs += w2_jobs(tier, ("TM", "SW"), ((2, 2), (0, 0)), (-1, 0), 1)
     rep = run_svmc(prop, tier, jobs, level="exploration")
     if rep.get("harness_errors"):
         return rep
